@@ -7,16 +7,17 @@ for pat in sys.argv[2:]:
     for b in f.find(pat):
         if b.derived: continue
         t=time.time()
-        I = Interp(f, {'kslots': 2})
+        I = Interp(f, {'kslots': int(__import__('os').environ.get('K','2')), 'decline_loop_obligations_in': {'gse_encap::Encapsulator::encap_ext'}})
         rets = I.run_root(b)
         print(f"=== {b.key}: {len(rets)} return worlds, {time.time()-t:.2f}s stats={ {k:(len(v) if isinstance(v,set) else v) for k,v in I.stats.items()} } fm={STATS}")
         seen=set()
         for r in I.all_records():
-            if r.kind=='ob' and not r.data['ok']:
+            if r.kind=='ob' and not r.data['ok'] and not r.data.get('declined'):
                 k=(r.site,r.data['desc'])
                 if k in seen: continue
                 seen.add(k)
                 print(f"  FAIL {r.site[0].split('::')[-1]} bb{r.site[1]} L{r.site[3]} [{r.data['okind']}] {r.data['desc']}  needs={r.data.get('needs')} state={r.data.get('state')} ctx={[ (c[0].split('::')[-1],c[1]) for c in r.ctx]} part={r.data.get('part')}")
         nob=sum(1 for r in I.all_records() if r.kind=='ob')
         nok=sum(1 for r in I.all_records() if r.kind=='ob' and r.data['ok'])
-        print(f"  obligations {nob} ok {nok}; unmodelled={I.unmodelled}")
+        ndec=sum(1 for r in I.all_records() if r.kind=='ob' and r.data.get('declined'))
+        print(f"  obligations {nob} ok {nok} declined {ndec}; unmodelled={I.unmodelled}")
